@@ -129,6 +129,9 @@ func genC13(r *kernel.Rand, sc *kernel.Scenario, tier string, run int) {
 				f = kernel.St("len", "m", m, "t", tProto, "f", 0, "v", r.Intn(7), "be", true)
 			} else {
 				f = kernel.St("pb", "m", m, "t", tProto, "site", r.Intn(1000), "mut", r.Intn(12), "val", r.Intn(12))
+				if r.Bool(0.2) {
+					f.A["mut"], f.A["val"] = 100, int64(r.Intn(20))
+				}
 				if m < len(sitePaths) && len(sitePaths[m]) > 0 {
 					k := int(f.Int("site")) % len(sitePaths[m])
 					occ := 0
@@ -444,6 +447,39 @@ func pbFault(frame []byte, f *kernel.Step) ([]byte, string) {
 		}
 	}
 	r := kernel.NewRand(kernel.Derive(uint64(f.Int("site")), "pb", f.Int("mut"), f.Int("val")))
+	if f.Int("mut") == 100 {
+		// an amount just above the documented size limit: 129 bytes whose first
+		// byte is small (the value has 1025..1031 bits), or exactly at it
+		var amounts []pbSite
+		for _, c := range sites {
+			if c.fd != nil && c.fd.Kind() == protoreflect.BytesKind && c.fd.Name() == "balance" {
+				amounts = append(amounts, c)
+			}
+		}
+		if len(amounts) == 0 {
+			return nil, ""
+		}
+		c := amounts[int(uint64(f.Int("site"))%uint64(len(amounts)))]
+		n := []int{129, 129, 129, 128, 130}[int(uint64(f.Int("val"))%5)]
+		x := r.Bytes(n)
+		x[0] = []byte{0x01, 0x7f, 0x40, 0x02}[int(uint64(f.Int("val")/5)%4)]
+		if c.fd.IsList() {
+			l := c.msg.Mutable(c.fd).List()
+			if l.Len() == 0 {
+				return nil, ""
+			}
+			l.Set(int(uint64(f.Int("site")/7)%uint64(l.Len())), protoreflect.ValueOfBytes(x))
+		} else {
+			c.msg.Set(c.fd, protoreflect.ValueOfBytes(x))
+		}
+		body, err := proto.Marshal(&env)
+		if err != nil || len(body) > 0xffff {
+			return nil, ""
+		}
+		out := make([]byte, 2, 2+len(body))
+		binary.BigEndian.PutUint16(out, uint16(len(body)))
+		return append(out, body...), fmt.Sprintf("%s: an amount of %d bytes starting with %#x", c.path, n, x[0])
+	}
 	desc := pbMutate(s, int(uint64(f.Int("mut"))%64), int(uint64(f.Int("val"))%64), r)
 	if desc == "" {
 		return nil, ""
